@@ -144,7 +144,16 @@ func genC11(r *Rng, tier string) *C11Scn {
 		}
 	}
 	if c.Source != "legacy" {
+		if hammer && lim.maxKeys >= 3000 && r.Chance(0.6) {
+			forceKeyKind = 11 // dozens of 257-bit nodes with different label sets
+		}
 		spec, name := genSpec(r, GenLimits{MaxKeys: lim.maxKeys})
+		if forceKeyKind >= 0 {
+			forceKeyKind = -1
+			if r.Chance(0.7) {
+				spec.Opt[3] = 1 // Complete: iterators and scans take part
+			}
+		}
 		if r.Chance(0.01) {
 			spec, name = genBigValueSpec(r)
 		}
